@@ -24,6 +24,7 @@ func init() {
 	vh.Register("c03", "replay-names", replayNames)
 	vh.Register("c03", "record", record)
 	vh.Register("c03", "one", one)
+	vh.Register("c03", "stress", stress)
 }
 
 // Vector is one line of names_vectors.ndjson.
@@ -175,14 +176,29 @@ func Expected(s string) (t string, failed bool, want [3]bool) {
 	return t, false, want
 }
 
-// CheckOne runs the three validators on s and returns the first disagreement
-// with want / the error shape / the hierarchy, or "".
-func CheckOne(s string, want [3]bool) (fn, what string, obs [3]Observed) {
-	for i, v := range validators {
-		obs[i] = observe(v.f, s)
+// Orders in which the three validators are called on one input ("no hidden
+// state": a verdict may not depend on what was validated just before).
+var (
+	StrictToLenient = [3]int{0, 1, 2}
+	LenientToStrict = [3]int{2, 1, 0}
+)
+
+func orderName(order [3]int) string {
+	p := make([]string, 3)
+	for i, k := range order {
+		p[i] = strings.TrimPrefix(validators[k].name, "Validate")
 	}
-	for i, v := range validators {
-		o := obs[i]
+	return strings.Join(p, "→")
+}
+
+// CheckOrder runs the three validators on s in the given order and returns
+// the first disagreement with want / the error shape / the hierarchy, or "".
+func CheckOrder(s string, want [3]bool, order [3]int) (fn, what string, obs [3]Observed) {
+	for _, i := range order {
+		obs[i] = observe(validators[i].f, s)
+	}
+	for _, i := range order {
+		v, o := validators[i], obs[i]
 		switch {
 		case o.Panic != "":
 			return v.name, "panic: " + o.Panic, obs
@@ -199,6 +215,19 @@ func CheckOne(s string, want [3]bool) (fn, what string, obs [3]Observed) {
 	}
 	if obs[1].Nil && !obs[2].Nil {
 		return "ValidateDomainName", "SRV-valid name is not domain-name-valid", obs
+	}
+	return "", "", obs
+}
+
+// CheckOne judges s by all validators strict→lenient and then lenient→strict.
+// obs is what the first pass observed.
+func CheckOne(s string, want [3]bool) (fn, what string, obs [3]Observed) {
+	fn, what, obs = CheckOrder(s, want, StrictToLenient)
+	if fn != "" {
+		return fn, what, obs
+	}
+	if f2, w2, _ := CheckOrder(s, want, LenientToStrict); f2 != "" {
+		return f2, w2 + " (called in the order " + orderName(LenientToStrict) + " right after " + orderName(StrictToLenient) + " on the same input)", obs
 	}
 	return "", "", obs
 }
@@ -251,6 +280,10 @@ func replayNames(args []string) error {
 		rngs[i] = vh.Rand(300 + uint64(i))
 	}
 	bugs := &specBugs{}
+	resv := make([]Reservoir, nw)
+	for i := range resv {
+		resv[i].Cap = HistoryCap()/nw + 1
+	}
 	err = ParallelLines(args[0], nw, func(w int, raw []byte) error {
 		var v Vector
 		if err := json.Unmarshal(raw, &v); err != nil {
@@ -295,6 +328,7 @@ func replayNames(args []string) error {
 			if want[2] {
 				naccepted.Add(1)
 			}
+			resv[w].Add(Entry{S: s, Want: want}, rngs[w])
 			if fn, what, obs := CheckOne(s, want); fn != "" {
 				key := s
 				// Prefer the seed-independent representative as the key.
@@ -316,11 +350,19 @@ func replayNames(args []string) error {
 	if e := bugs.err(); e != nil {
 		return e
 	}
+	// Sequential second pass: shuffled inputs, random validator order, look-alike pairs.
+	var entries []Entry
+	for i := range resv {
+		entries = append(entries, resv[i].E...)
+	}
+	hcalls := History(entries, vh.Rand(350), func(fn, key, what string, detail any) {
+		res.Mismatch(fmt.Sprintf("%s(%s)", fn, shortQ(key)), what+" [G history]", detail)
+	})
 	d := 0
 	for _, x := range dds {
 		d += x.N()
 	}
-	return res.Close(map[string]any{"vectors": nvec.Load(), "evaluations": nconc.Load() * 3, "concretisations": nconc.Load(),
+	return res.Close(map[string]any{"vectors": nvec.Load(), "evaluations": nconc.Load()*6 + int64(hcalls), "history_inputs": len(entries), "history_calls": hcalls, "concretisations": nconc.Load(),
 		"distinct_nontrivial": d, "idna_altered": naltered.Load(), "accepted_by_grammar": naccepted.Load()})
 }
 
